@@ -37,6 +37,7 @@ STRENGTHENED = {
     "C16-4": "missed at first: batches were only run from the project root; the same batch from a directory below with every argument spelled ../ added",
     "C17-4": "missed at first: calls were never arguments of other calls; a statement shape with a nested call added",
     "C07-3": "missed at first (an apparent catch was a defect of the unchanged tree, repaired as e3ec5f2): lists were homogeneous; joins of lists of different lengths and element types added to proggen",
+    "C07-4": "missed until the last full run of the matrix (an earlier apparent catch was a defect of the unchanged tree): no list was grown from the empty list, bound and then indexed by a literal; added to proggen",
     "C10-4": "missed at first: shows only in `ucg repl`, which no check drove; 1 in 40 C10 cases is now a repl session of refused rebindings with the name read back in between",
     "C11-4": "missed at first: shows only in `ucg repl`; 1 in 400 C11 cases now types a multi-line string literal into the repl and compares it with the one-line literal",
     "C18-4": "missed at first: shows only in `ucg repl`; 1 in 3 strict reads of an unset variable is now also typed into the repl with the planted secret in the environment",
